@@ -504,6 +504,27 @@ def case(ctx, rng, idx, state):
         wit["NNB"] = bk.NNB
         text_roundtrip(ctx, tmp, objs, bk, wit, rng)
         npz_roundtrip(ctx, tmp, objs, wit, sparse=False)
+        # (added after a seeded change was missed) two multi-step histories of the same objects:
+        # (a) the per-k dictionaries are keyed by the k index - their insertion order must not matter to the writers;
+        # (b) save to npz -> load -> write the text file -> read it: the chain must still reproduce the original data
+        from wannierberri.w90files import EIG, AMN, MMN
+        order = [int(i) for i in rng.permutation(NK)]
+        pobjs = dict(objs)
+        pobjs["EIG"] = EIG(data={k: objs["EIG"].data[k] for k in order}, NK=NK)
+        pobjs["AMN"] = AMN(data={k: objs["AMN"].data[k] for k in order}, NK=NK)
+        pobjs["MMN"] = MMN(data={k: objs["MMN"].data[k] for k in order}, NK=NK,
+                           bk_reorder={k: objs["MMN"].bk_reorder[k] for k in order})
+        text_roundtrip(ctx, tmp, pobjs, bk, dict(wit, variant="per-k dictionaries built in a permuted insertion order"), rng)
+        robjs = dict(objs)
+        for name in ("EIG", "AMN", "MMN"):
+            path = os.path.join(tmp, f"chain_{name}.npz")
+            objs[name].to_npz(path)
+            robjs[name] = type(objs[name]).from_npz(path)
+        text_roundtrip(ctx, tmp, robjs, bk, dict(wit, variant="objects reloaded from npz before writing the text files"), rng)
+        for name in ("EIG", "AMN", "MMN"):   # ... and the chain ends where it started
+            compare_objects(ctx, f"{name}.to_npz/from_npz", objs[name], robjs[name], wit)
+        ctx.count("text_roundtrip_permuted_dict_order")
+        ctx.count("text_roundtrip_after_npz_reload")
         container_roundtrip(ctx, tmp, rng, objs, bk, wit, sparse=False)
         if rng.random() < 0.35:
             objs_dw = build_objects(rng, mp, NB, NW, lattice, None, scale, ("EIG", "AMN", "MMN", "CheckPoint"))[0] \
